@@ -20,7 +20,16 @@ impl Env {
         std::fs::create_dir_all(workdir.join("assets")).ok();
         std::fs::write(workdir.join("assets").join("index.html"), "<html>stub</html>").ok();
         let log = std::fs::File::create(workdir.join("server.log")).map_err(|e| e.to_string())?;
-        let server = Command::new(server_bin)
+        let mut cmd = Command::new(server_bin);
+        // the server must not outlive this process, however it ends (the driver's watchdog kills with SIGKILL)
+        use std::os::unix::process::CommandExt;
+        unsafe {
+            cmd.pre_exec(|| {
+                libc::prctl(libc::PR_SET_PDEATHSIG, libc::SIGKILL as libc::c_ulong);
+                Ok(())
+            });
+        }
+        let server = cmd
             .current_dir(workdir)
             .env("MONGODB_URI", stub.uri())
             .env("VERIF_TASK_DELAY_MS", delay)
